@@ -6,13 +6,45 @@
 
 namespace g {
 
+// alternative source of the primitive choices: a byte string supplied by libFuzzer (src/fz_ops.cpp).  The generators are
+// the same code in both modes, so every precondition they maintain holds for fuzzer-derived cases as well.
+struct ByteSrc {
+  const uint8_t *p;
+  size_t n, pos;
+  int size;        // plays the role of rapidcheck's size parameter
+  long exhausted;  // choices made after the bytes ran out (they take the lowest value)
+  u64 take(int nb) {
+    u64 x = 0;
+    for (int i = 0; i < nb; i++) {
+      u64 b = 0;
+      if (pos < n) b = p[pos++];
+      else exhausted++;
+      x |= b << (8 * i);
+    }
+    return x;
+  }
+};
+inline ByteSrc *&bytes() {
+  static ByteSrc *b = nullptr;
+  return b;
+}
+
 inline int rng(int lo, int hi) {  // inclusive
   if (hi <= lo) return lo;
+  if (ByteSrc *b = bytes()) {
+    u64 range = (u64)((long long)hi - (long long)lo) + 1;
+    int nb = range <= 256 ? 1 : range <= 65536 ? 2 : 4;
+    return (int)((long long)lo + (long long)(b->take(nb) % range));
+  }
   return *rc::gen::resize(rc::kNominalSize, rc::gen::inRange<int>(lo, hi + 1));
 }
 inline bool coin(int num, int den) { return rng(0, den - 1) < num; }
-inline u64 seed() { return *rc::gen::resize(rc::kNominalSize, rc::gen::arbitrary<uint64_t>()); }
+inline u64 seed() {
+  if (ByteSrc *b = bytes()) return b->take(8);
+  return *rc::gen::resize(rc::kNominalSize, rc::gen::arbitrary<uint64_t>());
+}
 inline int cursize() {
+  if (ByteSrc *b = bytes()) return b->size;
   return *rc::gen::withSize([](int size) { return rc::gen::just(size); });
 }
 template <class T>
